@@ -120,7 +120,8 @@ func genLines(r interface{ IntN(int) int }, n int, includes []string, damage boo
 					"9223372036854775807-9223372036854775807", "0-9223372036854775807/9223372036854775807", "1-3/9223372036854775806", "0-1/0", "18446744073709551615-18446744073709551616", "-1-2", "3-3"}
 				l = "$GENERATE " + edge[r.IntN(len(edge))]
 			}
-			l += [...]string{" host$ A 10.0.0.$", " ${0,3,d}.rev PTR host-${-1,2,x}.example.org.", " $.gen 300 IN CNAME $.target", " h$ TXT \"n$\" \"$$\"", " g${1000} A 10.1.$.1"}[r.IntN(5)]
+			l += [...]string{" host$ A 10.0.0.$", " ${0,3,d}.rev PTR host-${-1,2,x}.example.org.", " $.gen 300 IN CNAME $.target", " h$ TXT \"n$\" \"$$\"", " g${1000} A 10.1.$.1",
+				" w$ TXT \"${0,255,d}\"", " w$ TXT \"${0,256,x}\"", " w$ TXT \"${0,1000000,d}\" \"${0,70000,o}\"", " ${0,4294967296,d} A 10.0.0.1", " w$ TXT \"${0,-1,d}\""}[r.IntN(10)]
 			out = append(out, l)
 		default:
 			if !damage {
@@ -403,6 +404,7 @@ type outcome struct {
 	top      *simfs.Reader
 	panicked string
 	sticky   string // violation text of the after-the-end probe
+	maxRec   int    // longest record returned (presentation form)
 	overflow bool   // gave up: more records than the tree can possibly denote
 	firedAt  int    // records returned before the call in which the first fault fired (-1 = none fired)
 	nexts    int
@@ -454,10 +456,13 @@ func parse(sc *Scenario, faults []simfs.Fault, short int) (o *outcome) {
 			o.sticky = "Next returned (nil, true)"
 			break
 		}
+		str := ""
 		if len(o.recs) < 300000 {
-			o.recs = append(o.recs, rr.String())
-		} else {
-			o.recs = append(o.recs, "")
+			str = rr.String()
+		}
+		o.recs = append(o.recs, str)
+		if len(str) > o.maxRec {
+			o.maxRec = len(str)
 		}
 		if len(o.recs) > hardLimit {
 			// far beyond anything the tree can denote: stop feeding memory
@@ -612,6 +617,20 @@ func runZone(sc *Scenario, res *core.Result, logf func(string, ...any)) {
 		if strings.Contains(l, "$$GENERATE") && balanced(sc.Files[0].Lines[:i]) {
 			nested = true
 		}
+	}
+	// memory proportional to the input: no single record may dwarf the line it came from
+	maxLine := 0
+	for _, f := range sc.Files {
+		for _, l := range f.Lines {
+			if len(l) > maxLine {
+				maxLine = len(l)
+			}
+		}
+	}
+	res.Bump("oracle.P7_record_size_bound")
+	if ref.maxRec > 70*maxLine+4096 {
+		res.Fail("P7", "record-larger-than-input", "the parser returned a record of %d octets (presentation form) from a tree whose longest line has %d octets: output is not proportional to the input", ref.maxRec, maxLine)
+		return
 	}
 	res.Bump("oracle.P7_generate_bound")
 	if len(ref.recs) > nGen*65536+nLines {
